@@ -103,6 +103,41 @@ fn dispatch(prop: &str, ctx: &mut Ctx) {
                 }
             }
         }
+        "dbg-userlower" => {
+            // every capitalised-only curated word: is its lower-case form accepted once the user lists it?
+            use harper_core::linting::Linter;
+            use harper_core::Dictionary;
+            let fst = harper_core::FstDictionary::curated();
+            let mut all: Vec<String> = fst.words_iter().map(|w| w.iter().collect::<String>()).collect();
+            all.sort();
+            let mut bad = 0;
+            let mut n = 0;
+            for w in &all {
+                let lower = w.to_lowercase();
+                if *w == lower || fst.contains_exact_word_str(&lower) || !w.chars().all(|c| c.is_ascii_alphabetic()) {
+                    continue;
+                }
+                n += 1;
+                let mut user = harper_core::MutableDictionary::new();
+                user.append_word_str(&lower, harper_core::WordMetadata::default());
+                let mut merged = harper_core::MergedDictionary::new();
+                merged.add_dictionary(fst.clone());
+                merged.add_dictionary(std::sync::Arc::new(user));
+                let merged = std::sync::Arc::new(merged);
+                let mut lg = harper_core::linting::LintGroup::new_curated(merged.clone(), harper_core::Dialect::American);
+                lg.set_all_rules_to(Some(false));
+                lg.config.set_rule_enabled("SpellCheck", true);
+                let doc = harper_core::Document::new(&lower, &harper_core::parsers::PlainEnglish, &merged);
+                let ls = lg.lint(&doc);
+                if !ls.is_empty() {
+                    bad += 1;
+                    if bad <= 30 {
+                        println!("FLAGGED {lower} (curated: {w}) {}", ls[0].message);
+                    }
+                }
+            }
+            println!("checked {n} flagged {bad}");
+        }
         "dbg-import" => {
             use harper_core::Dictionary;
             let w = ctx.opts.get("word").cloned().unwrap_or("color".into());
